@@ -1,5 +1,5 @@
 CONSTANTS
-  Shapes <- UpTo4
+  Shapes <- UpTo2
   MaxSC = 2
   Cols <- ColsDef
   Excluded <- ExcludedDef
